@@ -59,6 +59,7 @@ Record thread := mkThread {
   tc : option cid;                 (* the local [cache] *)
   tviews : option (list view);     (* the local [views]; None = Python None / unbound *)
   tres : option (list view);       (* returned value *)
+  tsnap : option dict;             (* dictionary read by WriteLoad (finer atomicity only) *)
   tpc : nat;                       (* instructions executed so far *)
   tq : nat;                        (* adapter-registry queries made so far *)
   tcrash : bool                    (* an instruction found its operand missing *)
@@ -86,19 +87,21 @@ Definition swap_cache (st : state) : state :=
   mkState (R st) (upd (heap st) (ncid st) []) (S (ncid st)) (ncid st) (lock st) (threads st) (ntid st).
 
 Definition tick (t : thread) (rest : list instr) : thread :=
-  mkThread (tkind t) (tkey t) (tups t) rest (tc t) (tviews t) (tres t) (S (tpc t)) (tq t) (tcrash t).
+  mkThread (tkind t) (tkey t) (tups t) rest (tc t) (tviews t) (tres t) (tsnap t) (S (tpc t)) (tq t) (tcrash t).
 Definition set_cont (t : thread) (c : list instr) : thread :=
-  mkThread (tkind t) (tkey t) (tups t) c (tc t) (tviews t) (tres t) (tpc t) (tq t) (tcrash t).
+  mkThread (tkind t) (tkey t) (tups t) c (tc t) (tviews t) (tres t) (tsnap t) (tpc t) (tq t) (tcrash t).
 Definition set_tc (t : thread) (c : option cid) : thread :=
-  mkThread (tkind t) (tkey t) (tups t) (cont t) c (tviews t) (tres t) (tpc t) (tq t) (tcrash t).
+  mkThread (tkind t) (tkey t) (tups t) (cont t) c (tviews t) (tres t) (tsnap t) (tpc t) (tq t) (tcrash t).
 Definition set_views (t : thread) (v : option (list view)) : thread :=
-  mkThread (tkind t) (tkey t) (tups t) (cont t) (tc t) v (tres t) (tpc t) (tq t) (tcrash t).
+  mkThread (tkind t) (tkey t) (tups t) (cont t) (tc t) v (tres t) (tsnap t) (tpc t) (tq t) (tcrash t).
 Definition set_res (t : thread) (v : option (list view)) : thread :=
-  mkThread (tkind t) (tkey t) (tups t) (cont t) (tc t) (tviews t) v (tpc t) (tq t) (tcrash t).
+  mkThread (tkind t) (tkey t) (tups t) (cont t) (tc t) (tviews t) v (tsnap t) (tpc t) (tq t) (tcrash t).
 Definition count_query (t : thread) : thread :=
-  mkThread (tkind t) (tkey t) (tups t) (cont t) (tc t) (tviews t) (tres t) (tpc t) (S (tq t)) (tcrash t).
+  mkThread (tkind t) (tkey t) (tups t) (cont t) (tc t) (tviews t) (tres t) (tsnap t) (tpc t) (S (tq t)) (tcrash t).
+Definition set_snap (t : thread) (d : option dict) : thread :=
+  mkThread (tkind t) (tkey t) (tups t) (cont t) (tc t) (tviews t) (tres t) d (tpc t) (tq t) (tcrash t).
 Definition crash (t : thread) : thread :=
-  mkThread (tkind t) (tkey t) (tups t) [] (tc t) (tviews t) None (S (tpc t)) (tq t) true.
+  mkThread (tkind t) (tkey t) (tups t) [] (tc t) (tviews t) None (tsnap t) (S (tpc t)) (tq t) true.
 
 Definition is_nil {A} (l : list A) : bool := match l with [] => true | _ => false end.
 
@@ -107,6 +110,23 @@ Definition midway (t : thread) : bool :=
   match tkind t with
   | KRegister => negb (Nat.eqb (tpc t) 0) && negb (is_nil (cont t))
   | KLookup => false
+  end.
+
+(* between Lock and Unlock (the body of [with registry._lock:]) *)
+Definition in_critical (t : thread) : bool :=
+  match cont t with Write _ :: _ => true | Unlock :: _ => true | _ => false end.
+Definition unfinished (st : state) (i : tid) : bool :=
+  match threads st i with Some t => negb (is_nil (cont t)) | None => false end.
+(* thread i can take a step that is not a blocked Lock *)
+Definition enabled (st : state) (i : tid) : bool :=
+  match threads st i with
+  | Some t =>
+      match cont t with
+      | [] => false
+      | Lock :: _ => match lock st with None => true | Some _ => false end
+      | _ => true
+      end
+  | None => false
   end.
 
 Definition init (R0 : reg) : state :=
@@ -163,6 +183,17 @@ Section Sys.
                 put (set_heap st (upd (heap st) c (dset (tkey t) vs (heap st c)))) i t'
             | _, _ => put st i (crash t)
             end
+        | WriteLoad tg =>
+            match (match tg with Local => tc t | Reread => Some (cur st) end) with
+            | Some c => put st i (set_snap t' (Some (heap st c)))
+            | None => put st i (crash t)
+            end
+        | WriteStore tg =>
+            match tviews t, tsnap t, (match tg with Local => tc t | Reread => Some (cur st) end) with
+            | Some vs, Some d, Some c =>
+                put (set_heap st (upd (heap st) c (dset (tkey t) vs d))) i t'
+            | _, _, _ => put st i (crash t)
+            end
         | Unlock => set_lock (put st i t') None
         | Return => put st i (set_res t' (tviews t))
         | RegisterAdapter => put (set_R st (rapply (tups t) (R st))) i t'
@@ -171,9 +202,9 @@ Section Sys.
         end
     end.
 
-  Definition new_lookup (k : key) : thread := mkThread KLookup k [] LP None None None 0 0 false.
+  Definition new_lookup (k : key) : thread := mkThread KLookup k [] LP None None None None 0 0 false.
   Definition new_register (ups : list update) : thread :=
-    mkThread KRegister (0, 0, 0)%N ups RP None None None 0 0 false.
+    mkThread KRegister (0, 0, 0)%N ups RP None None None None 0 0 false.
 
   Definition spawn (st : state) (t : thread) : state :=
     mkState (R st) (heap st) (ncid st) (cur st) (lock st)
@@ -265,58 +296,67 @@ Section Sys.
   Definition pt_get := 102.       (* after the attribute was read, before cache.get *)
   Definition pt_held := 103.      (* after cache[key] = views, before the lock is released *)
 
+  (* drive lookup thread [i] to completion, running the operations scheduled at its internal points *)
+  Fixpoint drive_lookup (run : list op -> sst -> sst) (i : tid) (inj : list (nat * list op))
+           (n q : nat) (after_unlock : bool) (s : sst) {struct n} : sst :=
+    match n with
+    | 0 => s
+    | S n' =>
+        match threads (sstate s) i with
+        | None => s
+        | Some t =>
+            match cont t with
+            | [] => s
+            | ins :: _ =>
+                let point :=
+                  match ins with
+                  | Query _ => Some q
+                  | Lock => Some pt_lock
+                  | Get => Some pt_get
+                  | Unlock => Some pt_held
+                  | Return => if after_unlock then Some pt_unlock else None
+                  | _ => None
+                  end in
+                let s1 := match point with Some p => run (find_inj p inj) s | None => s end in
+                drive_lookup run i inj n' (match ins with Query _ => S q | _ => q end)
+                             (match ins with Unlock => true | _ => false end)
+                             (emit s1 (Step i))
+            end
+        end
+    end.
+
+  (* drive register thread [i]: operations run just before and just after its Clear *)
+  Fixpoint drive_register (run : list op -> sst -> sst) (i : tid) (inj inj2 : list op)
+           (n : nat) (s : sst) {struct n} : sst :=
+    match n with
+    | 0 => s
+    | S n' =>
+        match threads (sstate s) i with
+        | None => s
+        | Some t =>
+            match cont t with
+            | [] => s
+            | ins :: _ =>
+                let s1 := match ins with Clear _ => run inj s | _ => s end in
+                let s2 := emit s1 (Step i) in
+                drive_register run i inj inj2 n' (match ins with Clear _ => run inj2 s2 | _ => s2 end)
+            end
+        end
+    end.
+
+  Definition lookup_fuel := 400.
+  Definition register_fuel := 50.
+
   Fixpoint run_op (fuel : nat) (o : op) (s : sst) : sst :=
     match fuel with
     | 0 => s
     | S f =>
-        let run_ops := fun (ops : list op) (s : sst) => fold_left (fun s o => run_op f o s) ops s in
+        let run := fun (ops : list op) (s : sst) => fold_left (fun s o => run_op f o s) ops s in
         match o with
         | OLookup id k inj =>
-            let i := ntid (sstate s) in
-            (fix drive (n q : nat) (after_unlock : bool) (s : sst) {struct n} : sst :=
-               match n with
-               | 0 => s
-               | S n' =>
-                   match threads (sstate s) i with
-                   | None => s
-                   | Some t =>
-                       match cont t with
-                       | [] => s
-                       | ins :: _ =>
-                           let point :=
-                             match ins with
-                             | Query _ => Some q
-                             | Lock => Some pt_lock
-                             | Get => Some pt_get
-                             | Unlock => Some pt_held
-                             | Return => if after_unlock then Some pt_unlock else None
-                             | _ => None
-                             end in
-                           let s1 := match point with Some p => run_ops (find_inj p inj) s | None => s end in
-                           drive n' (match ins with Query _ => S q | _ => q end)
-                                 (match ins with Unlock => true | _ => false end)
-                                 (emit s1 (Step i))
-                       end
-                   end
-               end) 400 0 false (emit (note s id) (SpawnLookup k))
+            drive_lookup run (ntid (sstate s)) inj lookup_fuel 0 false (emit (note s id) (SpawnLookup k))
         | ORegister id ups inj inj2 =>
-            let i := ntid (sstate s) in
-            (fix drive (n : nat) (s : sst) {struct n} : sst :=
-               match n with
-               | 0 => s
-               | S n' =>
-                   match threads (sstate s) i with
-                   | None => s
-                   | Some t =>
-                       match cont t with
-                       | [] => s
-                       | ins :: _ =>
-                           let s1 := match ins with Clear _ => run_ops inj s | _ => s end in
-                           let s2 := emit s1 (Step i) in
-                           drive n' (match ins with Clear _ => run_ops inj2 s2 | _ => s2 end)
-                       end
-                   end
-               end) 50 (emit (note s id) (SpawnRegister ups))
+            drive_register run (ntid (sstate s)) inj inj2 register_fuel (emit (note s id) (SpawnRegister ups))
         end
     end.
 
@@ -331,6 +371,11 @@ Definition std_lookup (tg : target) (guard : bool) : list instr :=
    IfMiss ([InitViews; QueryAll] ++ (if guard then [IfNonEmpty (std_wb tg)] else std_wb tg));
    Return].
 Definition std_register (m : clear_mode) : list instr := [RegisterAdapter; Clear m].
+(* the lookup program with another body of [if views:] -- used to state what the lock is (not) needed for *)
+Definition lookup_with (wb : list instr) : list instr :=
+  [ReadPtr; Get; IfMiss [InitViews; QueryAll; IfNonEmpty wb]; Return].
+Definition wb_nolock : list instr := [Write Local].                          (* cache[key] = views, no lock *)
+Definition wb_nolock_split : list instr := [WriteLoad Local; WriteStore Local]. (* the same as read-modify-write *)
 
 (* ---- the property's claims, as statements about a pair of programs ---- *)
 
